@@ -198,6 +198,9 @@ class ModelWorld:
             rows = wal.dbrows if (wal is not None and wal.dbrows is not None) else idx.dbrows
         return ModelImage(files, [dict(r) for r in rows], self.prefix_len, path)
 
+    def fresh_folder(self):
+        return '/vroot/new'
+
     def backup_dest(self):
         self.fs.dirs.add('/vbk')
         return '/vbk/dest'
@@ -232,7 +235,7 @@ class ModelWorld:
     def set_zlen(self, i, size, z):
         """the compressed stream of object i is z bytes long (symbolic, independent of size)"""
         self.key(i, size)
-        self.fs.zl.zlen[('obj', i, size)] = z
+        self.fs.zl.zlen[i] = z
 
     def set_codec(self, early=0, sample_len=20):
         self.fs.zl.early, self.fs.zl.sample_len = early, sample_len
@@ -241,7 +244,7 @@ class ModelWorld:
         if size == 0:
             return self.menv.Seg([(('z', 'empty'), 0, self.menv.ZEMPTY)])
         src = ('obj', i, size)
-        return self.menv.Seg([(('z', src), 0, self.fs.zl.zlen[src])])
+        return self.menv.Seg([(('z', src), 0, self.fs.zl.zlen[i])])
 
     def inflates_to(self, data, i, size):
         """library-free: the stored bytes are exactly the compressed stream of object i"""
@@ -672,6 +675,9 @@ class RealWorld(RealImage):
 
     def backup_image(self, path):
         return RealImage(str(path), self.prefix_len)
+
+    def fresh_folder(self):
+        return os.path.join(self.base, 'new')
 
     def backup_dest(self):
         return os.path.join(self.base, 'dest')
